@@ -17,7 +17,13 @@
 EXTENDS Naturals, Sequences, FiniteSets, TLC, SequencesExt, FiniteSetsExt
 
 PropKinds == {"ref", "arr", "inline", "arrInline", "map", "oneOf", "anyOf"}
-AllKinds  == PropKinds \cup {"allOf", "alias"}
+\* degenerate property nodes without a target (C08 termination family): null node, {}, bare object, array without items
+LeafKinds == {"null", "empty", "bareobj", "barearr"}
+\* schema-level kinds: allOf: [$ref to] ; allOfReq: allOf: [{required: <all keys of to>}, $ref to] (a required-only member
+\* listed BEFORE the member that declares the properties) ; addl: additionalProperties: $ref to next to own properties ;
+\* alias: the whole schema is $ref: to
+SchemaKinds == {"allOf", "allOfReq", "addl", "alias"}
+AllKinds  == PropKinds \cup LeafKinds \cup SchemaKinds
 
 EdgesOver(names, kinds) == [from : names, kind : kinds, to : names, req : BOOLEAN]
 
@@ -32,8 +38,10 @@ WellFormed(doc) ==
   /\ \A n \in Range(doc.order) :
         IsAlias(doc, n) => Len(Owner(doc, n)) = 1
   /\ \A i, j \in 1..Len(doc.edges) :
-        (i # j /\ doc.edges[i].kind = "allOf" /\ doc.edges[j].kind = "allOf" /\ doc.edges[i].from = doc.edges[j].from)
+        (i # j /\ doc.edges[i].kind \in {"allOf", "allOfReq"} /\ doc.edges[j].kind \in {"allOf", "allOfReq"} /\ doc.edges[i].from = doc.edges[j].from)
           => doc.edges[i].to # doc.edges[j].to
+  /\ \A i, j \in 1..Len(doc.edges) :
+        (i # j /\ doc.edges[i].kind = "addl" /\ doc.edges[j].kind = "addl") => doc.edges[i].from # doc.edges[j].from
 
 PropKey(i) == "p" \o ToString(i)
 
@@ -46,14 +54,17 @@ KindOf(e) ==
     [] e.kind = "map"       -> "map:ref:" \o e.to
     [] e.kind = "oneOf"     -> "union:ref:" \o e.to \o "|str"
     [] e.kind = "anyOf"     -> "union:ref:" \o e.to \o "|str"
+    [] OTHER                -> "?"          \* degenerate nodes: any kind is acceptable
 
 \* own declared fields of n: "id" plus one per non-allOf edge
 OwnFields(doc, n) ==
   {[key |-> "id", required |-> TRUE, kind |-> "str"]} \cup
   {[key |-> PropKey(i), required |-> doc.edges[i].req, kind |-> KindOf(doc.edges[i])] :
-      i \in {j \in 1..Len(doc.edges) : doc.edges[j].from = n /\ doc.edges[j].kind \notin {"allOf", "alias"}}}
+      i \in {j \in 1..Len(doc.edges) : doc.edges[j].from = n /\ doc.edges[j].kind \notin SchemaKinds}}
 
-Parents(doc, n) == {doc.edges[i].to : i \in {j \in 1..Len(doc.edges) : doc.edges[j].from = n /\ doc.edges[j].kind = "allOf"}}
+Parents(doc, n) == {doc.edges[i].to : i \in {j \in 1..Len(doc.edges) : doc.edges[j].from = n /\ doc.edges[j].kind \in {"allOf", "allOfReq"}}}
+\* parents whose own properties the child makes required through a required-only allOf member
+ReqParents(doc, n) == {doc.edges[i].to : i \in {j \in 1..Len(doc.edges) : doc.edges[j].from = n /\ doc.edges[j].kind = "allOfReq"}}
 AliasTarget(doc, n) == LET i == CHOOSE j \in 1..Len(doc.edges) : doc.edges[j].from = n /\ doc.edges[j].kind = "alias" IN doc.edges[i].to
 
 \* ancestors through allOf (reflexive-transitive closure by bounded iteration); alias links are followed too
@@ -71,8 +82,11 @@ InheritsCyclically(doc, n) ==
 AnyInheritanceCycle(doc) == \E n \in Range(doc.order) : InheritsCyclically(doc, n)
 
 \* the reference resolver: every declared property, own or inherited; an alias has its target's fields
-ExpectedFields(doc, n) ==
+RawFields(doc, n) ==
   UNION {IF IsAlias(doc, m) THEN {} ELSE OwnFields(doc, m) : m \in Ancestors(doc, n)}
+ForcedKeys(doc, n) == {f.key : f \in UNION {OwnFields(doc, m) : m \in ReqParents(doc, n)}}
+ExpectedFields(doc, n) ==
+  {[f EXCEPT !.required = (f.required \/ f.key \in ForcedKeys(doc, n))] : f \in RawFields(doc, n)}
 
 ExpectedModel(doc, n) == [name |-> n, fields |-> ExpectedFields(doc, n), alias |-> IsAlias(doc, n)]
 
